@@ -459,6 +459,42 @@ class JobResult:
         self.errors += o.errors
 
 
+def _is_real(t):
+    return z3.is_arith(t) and t.sort() == z3.RealSort()
+
+
+def _strong(e, m, pos):
+    """a formula that implies `e` (pos) or `Not(e)` (not pos), with real comparisons strengthened by the margin m"""
+    if not z3.is_app(e):
+        return e if pos else z3.Not(e)
+    k = e.decl().kind()
+    ch = e.children()
+    if k == z3.Z3_OP_NOT:
+        return _strong(ch[0], m, not pos)
+    if k == z3.Z3_OP_AND:
+        parts = [_strong(c, m, pos) for c in ch]
+        return z3.And(*parts) if pos else z3.Or(*parts)
+    if k == z3.Z3_OP_OR:
+        parts = [_strong(c, m, pos) for c in ch]
+        return z3.Or(*parts) if pos else z3.And(*parts)
+    if k == z3.Z3_OP_IMPLIES:
+        a, b = ch
+        return z3.Or(_strong(a, m, False), _strong(b, m, True)) if pos else z3.And(_strong(a, m, True), _strong(b, m, False))
+    if k in (z3.Z3_OP_LE, z3.Z3_OP_LT, z3.Z3_OP_GE, z3.Z3_OP_GT) and _is_real(ch[0]) and _is_real(ch[1]):
+        a, b = ch
+        if k in (z3.Z3_OP_GE, z3.Z3_OP_GT):
+            a, b = b, a
+        # now e is a <= b or a < b
+        return (a + m <= b) if pos else (a >= b + m)
+    if k == z3.Z3_OP_EQ and _is_real(ch[0]) and _is_real(ch[1]):
+        a, b = ch
+        return e if pos else z3.Or(a + m <= b, b + m <= a)
+    if k == z3.Z3_OP_DISTINCT and len(ch) == 2 and _is_real(ch[0]) and _is_real(ch[1]):
+        a, b = ch
+        return z3.Or(a + m <= b, b + m <= a) if pos else (a == b)
+    return e if pos else z3.Not(e)
+
+
 class Runner:
     """Runs one job (or a slice of it given decision prefixes) in this process."""
 
@@ -514,6 +550,14 @@ class Runner:
             if ok:
                 res.violations.append(dict(site=site, inputs=to_json(cin), observed=observed, info=jsonable(info), exact=exact,
                                            job=self.job.name, prop=self.job.prop))
+                return
+        for model in self._margin_models(ctx, neg):
+            pin = concretize(self.inputs, model)
+            ok, observed = self._replay_fails(pin, site)
+            tried.append(pin)
+            if ok:
+                res.violations.append(dict(site=site, inputs=to_json(pin), observed=observed, info=jsonable(info), exact=False,
+                                           job=self.job.name, prop=self.job.prop, note="interior witness"))
                 return
         # last resort: small perturbations of the solver's witness (de-gridding: values with many decimals, broken ties).
         # The perturbation is applied to the *input variables* and is only used if every assumption of the job still holds,
@@ -573,6 +617,27 @@ class Runner:
                 yield s.model(), False
         finally:
             s.pop()
+
+    def _margin_models(self, ctx, extra):
+        """witnesses that sit in the interior of the path: every comparison decided on the path, and the violated
+        requirement itself, is strengthened by a margin (a < b becomes a + m <= b, a != b becomes |a - b| >= m), so that
+        float64 replay cannot fall on the other side of a near-tie the solver happened to pick."""
+        s = ctx.solver
+        for m in (fractions.Fraction(1, 1000), fractions.Fraction(1, 10 ** 6), fractions.Fraction(1, 10 ** 8)):
+            s.push()
+            try:
+                mv = z3.RealVal(m)
+                s.add(_strong(extra, mv, True))
+                for lit in ctx.lits:
+                    s.add(_strong(lit, mv, True))
+                s.set("timeout", 5000)
+                if s.check() == z3.sat:
+                    yield s.model()
+            except z3.Z3Exception:
+                pass
+            finally:
+                s.set("timeout", self.job.solver_timeout_ms)
+                s.pop()
 
     def _perturbed_models(self, ctx, extra):
         s = ctx.solver
